@@ -37,7 +37,9 @@ class Check(EngineCheck):
                 "LLBuild.Refine.EngineImpl_sound_C06_protocol_provide", "LLBuild.Refine.EngineImpl_sound_C06_protocol_inputs_available",
                 "LLBuild.Refine.EngineImpl_sound_C06_protocol_complete", "LLBuild.Refine.EngineImpl_sound_C06_protocol_completes",
                 "LLBuild.Refine.EngineImpl_sound_C05_quiescent_async", "LLBuild.Refine.EngineImpl_async_nil"]
-    mix = [(0.45, {}), (0.35, {"threads": True}), (0.2, {"foreign_cancel": True})]
+    mix = [(0.45, {}), (0.35, {"threads": True}), (0.2, {"foreign_cancel": True}),
+           # directed: cancelled with several deferred tasks outstanding, two or more reported complete back-to-back
+           (0.1, {"drain": True})]
     budget = (300, 3000)
     cross_schedule = True
     assumptions = EngineCheck.assumptions + [
